@@ -11,14 +11,24 @@ namespace Kernel
 
 /-! ### rotations -/
 
+theorem map_rotateLeft' (f : Nat → Nat) (l : List Nat) (n : Nat) : (l.rotateLeft n).map f = (l.map f).rotateLeft n := by
+  unfold List.rotateLeft
+  simp only [List.length_map]
+  split
+  · rfl
+  · simp [List.map_drop, List.map_take]
+
 theorem Rot.map {a b : List Nat} (h : Rot a b) (f : Nat → Nat) : Rot (a.map f) (b.map f) := by
   rcases h with rfl | rfl | rfl
   · exact Or.inl rfl
-  · exact Or.inr (Or.inl (by simp [List.rotateLeft]; split <;> simp))
-  · exact Or.inr (Or.inr (by simp [List.rotateLeft]; split <;> simp))
+  · exact Or.inr (Or.inl (map_rotateLeft' f b 1))
+  · exact Or.inr (Or.inr (map_rotateLeft' f b 2))
 
 theorem Rot.length {a b : List Nat} (h : Rot a b) : a.length = b.length := by
-  rcases h with rfl | rfl | rfl <;> simp
+  rcases h with rfl | rfl | rfl
+  · rfl
+  · exact List.length_rotateLeft ..
+  · exact List.length_rotateLeft ..
 
 theorem Rot.trans3 {a b c : List Nat} (h1 : Rot a b) (h2 : Rot b c) (hc : c.length = 3) : Rot a c := by
   match c, hc with
@@ -75,7 +85,7 @@ theorem TetOn.rot_base {k : Kernel} {hs : List Nat} {p q r s : Nat} (h : TetOn k
   have hd' : [q, r, p, s].Nodup := by
     simp only [List.nodup_cons, List.mem_cons, List.not_mem_nil, or_false, not_or, List.nodup_nil, and_true] at a ⊢
     obtain ⟨⟨h1, h2, h3⟩, ⟨h4, h5⟩, h6, _⟩ := a
-    exact ⟨⟨h4, Ne.symm h1, h5⟩, ⟨Ne.symm h2, h6⟩, h3⟩
+    exact ⟨⟨h4, Ne.symm h1, h5⟩, ⟨Ne.symm h2, h6⟩, h3, not_false⟩
   -- every triangle of the one family is a rotation of one of the other
   have key : ∀ t ∈ tris q r p s, ∃ t' ∈ tris p q r s, Rot t t' ∧ Rot t' t := by
     intro t ht
